@@ -148,19 +148,35 @@ def reference(p, a, b, x):
     if op in ("fpToSBV", "fpToUBV"):
         n = p["n"]
         r = z3.fpRoundToIntegral(rm, a)
+        # the bounds are powers of two (exact in every sort): 2**n - 1 itself is not representable in single precision for n = 32 and
+        # would round UP to the first value that is out of range
         if op == "fpToSBV":
-            lo, hi = z3.FPVal(float(-(2 ** (n - 1))), sort), z3.FPVal(float(2 ** (n - 1) - 1), sort)
+            lo, hi1 = z3.FPVal(float(-(2 ** (n - 1))), sort), z3.FPVal(float(2 ** (n - 1)), sort)
             t = z3.fpToSBV(rm, a, z3.BitVecSort(n))
         else:
-            lo, hi = z3.FPVal(0.0, sort), z3.FPVal(float(2 ** n - 1), sort)
+            lo, hi1 = z3.FPVal(0.0, sort), z3.FPVal(float(2 ** n), sort)
             t = z3.fpToUBV(rm, a, z3.BitVecSort(n))
-        inrange = z3.And(z3.Not(z3.fpIsNaN(a)), z3.Not(z3.fpIsInf(a)), z3.fpLEQ(lo, r), z3.fpLEQ(r, hi))
+        inrange = z3.And(z3.Not(z3.fpIsNaN(a)), z3.Not(z3.fpIsInf(a)), z3.fpLEQ(lo, r), z3.fpLT(r, hi1))
         return t, inrange     # NaN, infinities and out-of-range values are unspecified
     if op == "cancel1":
         return z3.fpToIEEEBV(z3.fpBVToFP(x, sort)), z3.Not(z3.fpIsNaN(z3.fpBVToFP(x, sort)))
     if op == "cancel2":
         return z3.fpBVToFP(z3.fpToIEEEBV(a), sort), z3.Not(z3.fpIsNaN(a))
     raise ValueError(op)
+
+
+def crash_obligations(tier):
+    """C04's floating-point leg: the fold obligations of the conversions and of arithmetic, asked only whether folding crashes - for every
+    operand value, including the ones whose result SMT-LIB leaves unspecified"""
+    out = []
+    for oid, p in obligations(tier):
+        if p["leg"] != "fold" or p["rm"] not in ("RNE", "RTZ", "-"):
+            continue
+        if p["op"] in ("fpToSBV", "fpToUBV", "fpToFP-sbv", "fpToFP-ubv", "fpToFP-fp", "fpToFP-bv", "fpSqrt", "fpDiv", "fpToIEEEBV", "fpFP") or (p["op"] in ARITH and p["rm"] == "RNE"):
+            q = dict(p)
+            q["crash_only"] = True
+            out.append(("fpcrash:" + oid[5:], q))
+    return out
 
 
 def _xwidth(p):
@@ -266,6 +282,12 @@ def run_fold(oid, p, tier):
         return apply_op(claripy, p, A, B, X)
 
     def check(path, s, out):
+        if p.get("crash_only"):
+            # C04: for EVERY operand value (specified or not) folding returns an expression or raises a claripy error
+            if path.kind == "exc" and not isinstance(path.result, claripy.errors.ClaripyError):
+                ex = path.result
+                return [Fail("exception", f"folding {p['op']} raised {type(ex).__name__}: {str(ex)[:160]}", None, known_key="exc:" + type(ex).__name__)]
+            return []
         if path.kind == "exc":
             ex = path.result
             cond = pre  # an exception on operands for which the operation is specified
@@ -388,6 +410,14 @@ def replay(case):
     a_py, b_py = _float_of_model_string(vals.get("fa"), zs), _float_of_model_string(vals.get("fb"), zs)
     x_py = int(vals.get("bx", "0"))
     fs = _fs(claripy, sort)
+    if p.get("crash_only"):
+        try:
+            apply_op(claripy, p, claripy.FPV(a_py, fs), claripy.FPV(b_py, fs), claripy.BVV(x_py, xw))
+        except claripy.errors.ClaripyError as ex:
+            return {"violated": False, "detail": f"claripy error {type(ex).__name__}"}
+        except Exception as ex:  # noqa: BLE001
+            return {"violated": True, "detail": f"folding raised {type(ex).__name__}: {ex} on a={a_py!r} b={b_py!r} x={x_py}"}
+        return {"violated": False, "detail": "returned an expression"}
     try:
         r = apply_op(claripy, p, claripy.FPV(a_py, fs), claripy.FPV(b_py, fs), claripy.BVV(x_py, xw))
     except Exception as ex:  # noqa: BLE001
